@@ -53,6 +53,54 @@ P["C11"] = dict(
     design_ref="DESIGN.md section 3, C11",
 )
 
+P["C02"] = dict(
+    claimed=True,
+    technique="static analysis: MIR value-graph dataflow over every per-tuple loop (loop-carried state, memo idiom, "
+              "count additivity)",
+    decides=[
+        "R-LOOP-CARRIED: in every per-tuple loop of every function reachable from a registered InnerOp, the values "
+        "written for tuple i and all branch conditions depend only on loop invariants and tuple i (or satisfy the "
+        "memo idiom key!=memo; memo:=key; initial NaN)",
+        "R-COUNT-OR-NAN/additive: each iteration adds at most one to the success count",
+    ],
+    not_decided=["agreement of specialised container accessors with the trait defaults",
+                 "bit-identity across containers (follows from determinism, not checked)"],
+    level="Decides purity of the per-tuple computation (a necessary and, with immutability of Op, sufficient "
+          "structural condition for independence of neighbours, order and chunking); container equivalence is not decided.",
+    design_ref="DESIGN.md section 3, C02",
+)
+P["C07"] = dict(
+    claimed=True,
+    technique="static analysis: loop-carried-state and element-preservation dataflow on the Helmert/Molodensky loops",
+    decides=["R-LOOP-CARRIED on helmert_common: parameters are evaluated at each tuple's own epoch",
+             "R-ELEMENT-PRESERVE: helmert and molodensky never change the fourth coordinate"],
+    not_decided=["similarity / rotation-matrix algebra", "molodensky accuracy", "second-order inverse accuracy"],
+    level="Decides the epoch-independence and untouched-time clauses; the algebraic clauses are not decided.",
+    design_ref="DESIGN.md section 3, C07",
+)
+P["C08"] = dict(
+    claimed=True,
+    technique="static analysis: per-iteration typestate (written x counted) on the grid operators' loops",
+    decides=["R-COUNT-OR-NAN on gridshift/deformation/deflection: a point that gets no grid value is overwritten "
+             "with NaN and not counted; every other path writes and counts"],
+    not_decided=["bilinearity, continuity, NTv2 sub-grid selection values", "unit conventions"],
+    level="Decides the 'outside all grids is failed' clause as a path property; interpolation numerics are not decided.",
+    design_ref="DESIGN.md section 3, C08",
+)
+P["C10"] = dict(
+    claimed=True,
+    technique="static analysis: set-of-states typestate dataflow per loop iteration (written none/value/NaN x "
+              "counted 0/1/2+), and element-wise value-graph comparison of written tuples with the tuple read",
+    decides=["R-COUNT-OR-NAN: on every path through one iteration of every per-tuple loop the tuple is (written or "
+             "passed) and counted once, or overwritten with NaN and not counted",
+             "R-ELEMENT-PRESERVE: for plane / 3D / single-element operators every written tuple keeps the elements "
+             "the operator does not work on as copies of the same element of the tuple read"],
+    not_decided=["NaN propagation through arithmetic", "which inputs are inside the domain"],
+    level="Decides the counting/NaN discipline and untouched-axes clauses as all-paths properties of the operator "
+          "loops; numerical domain questions are not decided.",
+    design_ref="DESIGN.md section 3, C10",
+)
+
 NA = {
     "C16": "layout insignificance / typed parsing are statements about a string rewriter on all texts; no necessary "
            "structural condition in reach beyond what the compiler's types already enforce (see DESIGN.md section 4)",
